@@ -31,6 +31,48 @@ theorem same_content_same_text_any_capacity (g1 g2 : G Label Hex) (pre extra : L
     (h2 : slotsOf g2 = pre ++ extra) (hc : Rd.SameContent (slotsOf g1) pre) (he : ∀ s ∈ extra, s.present = false) :
     toXml g1 = toXml g2 ∧ toDot g1 = toDot g2 := Rs.same_content_same_text_caps g1 g2 pre extra h2 hc he
 
+/-! ### at the level of the text (`Algo/RenderText.lean`)
+
+`toXml g` is `String.ofList (xmlChars (exportDoc g))`, the text character by character (the correspondence check finds
+it equal to the text of the real `to_xml()` on every export it compares: `exact_text_differences` in the evidence). -/
+
+/-- every label stored on a present vertex is a canonical label value without `"` or newline in its text: the labels
+    "that need no XML escaping" of the property's quantifier -/
+def SafeLabels (g : G Label Hex) : Prop := ∀ v, v < cap g → tag g v ≠ 0 → ∀ e ∈ edg g v, SafeLabel e.1
+
+theorem safe_doc (g : G Label Hex) (h : SafeLabels g) : ∀ n ∈ exportDoc g, SafeNode n := by
+  intro n hn e he
+  obtain ⟨h1, h2, h3, _⟩ := export_node g n hn
+  exact h n.id h1 h2 e (h3.subset he)
+
+/-- **the XML text reads back as the document**: a strict reader of the format recovers, from the text alone, one
+    record per present vertex in ascending order with every edge (label as a label value, target) and the data bytes -/
+theorem xml_reads_back (g : G Label Hex) (h : SafeLabels g) : readXml (toXml g).toList = some (exportDoc g) := by
+  unfold toXml renderXml
+  rw [String.toList_ofList]
+  exact readXml_xmlChars _ (safe_doc g h)
+
+/-- **the text determines the document**: two graphs with the same XML text have the same document — the same present
+    vertices, the same edges, the same data. With `same_content_same_text` this makes the text an exact description:
+    the same content gives the same text and different content gives different texts. -/
+theorem xml_text_determines_document (g1 g2 : G Label Hex) (h1 : SafeLabels g1) (h2 : SafeLabels g2)
+    (he : toXml g1 = toXml g2) : exportDoc g1 = exportDoc g2 := by
+  have a := xml_reads_back g1 h1
+  have b := xml_reads_back g2 h2
+  rw [he, b] at a
+  exact (Option.some.inj a).symm
+
+/-- … in particular the same present vertices -/
+theorem xml_text_determines_vertices (g1 g2 : G Label Hex) (h1 : SafeLabels g1) (h2 : SafeLabels g2)
+    (he : toXml g1 = toXml g2) (n : Nat) : (n < cap g1 ∧ tag g1 n ≠ 0) ↔ (n < cap g2 ∧ tag g2 n ≠ 0) := by
+  rw [← nodes_are_present_vertices, ← nodes_are_present_vertices, xml_text_determines_document g1 g2 h1 h2 he]
+
+/-! non-vacuity: the three kinds of label are safe labels; a concrete document reads back (kernel-evaluated) -/
+example : SafeLabel (.alpha 3) := ⟨.alpha 3 (by decide), by decide, by decide⟩
+example : SafeLabel (.greek 'ρ') := ⟨.greek 'ρ' (by decide) (by decide), by decide, by decide⟩
+example : SafeLabel (.str (Lb.pad8 ['f', 'o', 'o'])) :=
+  ⟨.str ['f', 'o', 'o'] (by decide) (by decide) (by decide) (by decide), by decide, by decide⟩
+
 /-- the derived order of `Label` used for sorting is a strict total order -/
 theorem label_order_strict : Rd.StrictTotal LO.lt := labelOrder_strict
 
